@@ -1,10 +1,10 @@
-\* corrected; 2 keys (one https), 3 callers x 2 calls, MaxConns 2, 3 ticks, 1 retry
+\* corrected; 2 keys (one https), 3 callers x 1 call, MaxConns 2, 3 ticks, 1 retry
 CONSTANTS
   Keys = {"a", "b"}
   TLSKeys = {"b"}
   Callers = {1, 2, 3}
-  MaxCalls = 2
-  NH = 6
+  MaxCalls = 1
+  NH = 3
   MaxConns = 2
   MaxTicks = 3
   MaxCI = 1
